@@ -124,9 +124,8 @@ func Verif_C19_ApplyEntry_ExactlyOnce() {
 	// become exactly the snapshot's too - whatever was recorded before, newer or older, for this or
 	// another source cluster. A position kept from before would make replay skip (or repeat) entries.
 	m3 := newRemoteSyncedStateMgr()
-	if vsym.Choose("prior.src", 2) == 1 {
-		m3.UpdateState("src", SyncedState{SyncedTerm: vsym.U64("q.term"), SyncedIndex: vsym.U64("q.index")})
-	}
+	// (no prior position at all is case (d) above; no fork here, so the path count stays that of (a)-(d))
+	m3.UpdateState("src", SyncedState{SyncedTerm: vsym.U64("q.term"), SyncedIndex: vsym.U64("q.index")})
 	m3.UpdateState("other", SyncedState{SyncedTerm: vsym.U64("o.term"), SyncedIndex: vsym.U64("o.index")})
 	m3.RestoreStates(clone)
 	s3, ok3 := m3.GetState("src")
